@@ -33,7 +33,7 @@ PCT_TOKENS = ["c%d", "%25", "%41", "caf%C3%A9", "100%25", "a%2Fb", "%7E", "%", "
 
 
 def plan(tier, seed):
-    specs = [{"kind": "history"}, {"kind": "flags"}] + [{"kind": "exhaustive", "first": t} for t in ALPHABET]
+    specs = [{"kind": "history"}, {"kind": "flags"}, {"kind": "threads", "rounds": 40 if tier == "quick" else 400}] + [{"kind": "exhaustive", "first": t} for t in ALPHABET]
     specs.append({"kind": "exhaustive", "first": None})
     for _ in range(4 if tier == "quick" else 12):
         specs.append({"kind": "chains", "n": 1500 if tier == "quick" else 60000})
@@ -256,6 +256,59 @@ def run(spec, ctx):
         ctx.bulk(n)
         ctx.count("history_sequences", n)
         return
+    if spec["kind"] == "threads":
+        # FRESH pointer objects (nothing has been asked of them yet) shared by 8 threads that print, hash, compare, take
+        # parents of, join onto and resolve them at once (yields injected inside pointer.py)
+        from jsonpath import JSONPointer
+
+        from rt.threads import stress
+
+        for _round in range(spec["rounds"]):
+            cases = []
+            for _ in range(6):
+                tokens = [r.choice(ALPHABET) for _ in range(r.randint(0, 3))]
+                text = rp.encode(tokens)
+                how = r.choice(["parse", "from_parts", "join"])
+                o = impl.call(lambda: JSONPointer(text) if how == "parse" else (JSONPointer.from_parts(list(tokens)) if how == "from_parts" or not tokens or any(t != t.lstrip() for t in tokens) else JSONPointer("").join(*[rp.encode_token(t) for t in tokens])))
+                if o.ok:
+                    doc = {}
+                    cur = doc
+                    for t in tokens:
+                        cur[t] = {}
+                        cur = cur[t]
+                    cases.append((o.value, tokens, text, doc, cur))
+            errors = []
+
+            def worker(wid, rr):
+                try:
+                    for p, tokens, text, doc, leaf in rr.sample(cases, len(cases)):
+                        what = rr.choice(["str", "hash-eq", "parent", "join", "resolve", "relative"])
+                        twin = JSONPointer.from_parts(list(tokens))
+                        if what == "str" and str(p) != text:
+                            errors.append({"pointer": text, "operation": "str", "got": str(p)})
+                        elif what == "hash-eq" and not (p == twin and hash(p) == hash(twin) and p in {twin}):
+                            errors.append({"pointer": text, "operation": "== / hash against a pointer built from the same tokens"})
+                        elif what == "parent" and str(p.parent()) != rp.encode(tokens[:-1]):
+                            errors.append({"pointer": text, "operation": "parent", "got": str(p.parent())})
+                        elif what == "join" and (str(p / "x") != rp.encode(list(tokens) + ["x"]) or (p / "x").parent() != p):
+                            errors.append({"pointer": text, "operation": "join then parent", "got": str(p / "x")})
+                        elif what == "resolve" and p.resolve(doc) is not leaf:
+                            errors.append({"pointer": text, "operation": "resolve"})
+                        elif what == "relative" and tokens and not (p.is_relative_to(twin.parent()) and not twin.parent().is_relative_to(p)):
+                            errors.append({"pointer": text, "operation": "is_relative_to"})
+                except Exception as e:  # noqa: BLE001
+                    errors.append({"thread": wid, "raised": "%s: %s" % (type(e).__name__, e)})
+
+            st = stress(worker, nthreads=8, files=("pointer.py",), seed=r.random(), prob=0.3)
+            ctx.evaluation(len(cases) * 8)
+            ctx.count("concurrent_uses_of_fresh_pointers", len(cases) * 8)
+            ctx.count("yields_injected", st["yields"])
+            ctx.cell("thread_interleaving_signatures", st["signature"])
+            for e in errors[:2]:
+                ctx.violation("pointer-shared-by-threads-misbehaves", {"threads": True}, e)
+            if errors:
+                return
+        return
     if spec["kind"] == "exhaustive":
         if spec["first"] is None:
             seqs = [()]
@@ -312,6 +365,9 @@ def finalize(m, tier):
 
 
 def replay(case, ctx):
+    if case.get("threads"):
+        run({"kind": "threads", "rounds": 150}, ctx)
+        return
     if case.get("flags"):
         run({"kind": "flags"}, ctx)
         return
